@@ -39,9 +39,9 @@ func catalogue() map[string][][]string {
 		"RENAME":         {w("RENAME k1 k5"), w("RENAME k1 k2"), w("RENAME nokey k5"), w("RENAME k1")},
 		"RENAMENX":       {w("RENAMENX k1 k5"), w("RENAMENX k1 k2"), w("RENAMENX nokey k5"), w("RENAMENX k1")},
 		"FLUSHDB":        {w("FLUSHDB"), w("FLUSHDB now")},
-		"EXPIRE":         {w("EXPIRE k1 a 100"), w("EXPIRE k1 nope 100"), w("EXPIRE nokey a 100"), w("EXPIRE k1 a x"), w("EXPIRE k1 a")},
+		"EXPIRE":         {w("EXPIRE k1 a 0"), w("EXPIRE k1 a -1"), w("EXPIRE k1 a 0.5"), w("EXPIRE k1 b 100"), w("EXPIRE k1 a 100 extra"), w("EXPIRE k1 a 100"), w("EXPIRE k1 nope 100"), w("EXPIRE nokey a 100"), w("EXPIRE k1 a x"), w("EXPIRE k1 a")},
 		"PERSIST":        {w("PERSIST k1 t"), w("PERSIST k1 a"), w("PERSIST k1 nope"), w("PERSIST nokey a"), w("PERSIST k1")},
-		"TTL":            {w("TTL k1 t"), w("TTL k1 a"), w("TTL k1 nope"), w("TTL nokey a"), w("TTL k1")},
+		"TTL":            {w("TTL k1 b"), w("TTL k1 t extra"), w("TTL k1 t"), w("TTL k1 a"), w("TTL k1 nope"), w("TTL nokey a"), w("TTL k1")},
 		"EXISTS":         {w("EXISTS k1 a"), w("EXISTS k1 nope"), w("EXISTS nokey a"), w("EXISTS k1")},
 		"FEXISTS":        {w("FEXISTS k1 a f"), w("FEXISTS k1 a nofield"), w("FEXISTS k1 nope f"), w("FEXISTS nokey a f"), w("FEXISTS k1 a")},
 		"TYPE":           {w("TYPE k1"), w("TYPE nokey"), w("TYPE")},
@@ -80,7 +80,7 @@ func catalogue() map[string][][]string {
 		"AUTH":           {w("AUTH secret"), w("AUTH wrong"), w("AUTH")},
 		"TIMEOUT":        {w("TIMEOUT 1 GET k1 a"), w("TIMEOUT 1 SCAN k1"), w("TIMEOUT 1 SET k1 a POINT 1 2"), w("TIMEOUT 1 DEL k1 a"), {"TIMEOUT", "1", "EVAL", catScriptW, "0"}, w("TIMEOUT x GET k1 a"), w("TIMEOUT 1"), w("TIMEOUT")},
 		"SERVER":         {w("SERVER"), w("SERVER EXT"), w("SERVER bogus")},
-		"INFO":           {w("INFO"), w("INFO server"), w("INFO bogus")},
+		"INFO":           {w("INFO all"), w("INFO default"), w("INFO clients"), w("INFO memory"), w("INFO persistence"), w("INFO stats"), w("INFO replication"), w("INFO cpu"), w("INFO cluster"), w("INFO server clients"), w("INFO SERVER"), w("INFO"), w("INFO server"), w("INFO bogus")},
 		"ROLE":           {w("ROLE"), w("ROLE x")},
 		"HEALTHZ":        {w("HEALTHZ"), w("HEALTHZ x")},
 		"GC":             {w("GC")},
@@ -89,7 +89,7 @@ func catalogue() map[string][][]string {
 		"CONFIG SET":     {w("CONFIG SET keepalive 300"), w("CONFIG SET maxmemory 0"), w("CONFIG SET bogus 1"), w("CONFIG SET keepalive"), w("CONFIG SET")},
 		"CONFIG REWRITE": {w("CONFIG REWRITE"), w("CONFIG REWRITE x")},
 		"CLIENT":         {w("CLIENT KILL addr 1.2.3.4:5"), w("CLIENT KILL 1.2.3.4:5"), w("CLIENT KILL id x"), w("CLIENT SETNAME"), w("CLIENT LIST extra"), w("CLIENT LIST"), w("CLIENT GETNAME"), w("CLIENT SETNAME me"), w("CLIENT KILL id 999"), w("CLIENT BOGUS"), w("CLIENT")},
-		"AOFMD5":         {w("AOFMD5 0 0"), w("AOFMD5 0 10"), w("AOFMD5 0 99999999"), w("AOFMD5 x 0"), w("AOFMD5")},
+		"AOFMD5":         {w("AOFMD5 10 5"), w("AOFMD5 -1 5"), w("AOFMD5 0 -5"), w("AOFMD5 0"), w("AOFMD5 0 0"), w("AOFMD5 0 10"), w("AOFMD5 0 99999999"), w("AOFMD5 x 0"), w("AOFMD5")},
 		"AOFSHRINK":      {w("AOFSHRINK")},
 		"PUBLISH":        {w("PUBLISH ch1 hello"), w("PUBLISH nochan hello"), w("PUBLISH ch1"), w("PUBLISH")},
 		"FOLLOW":         {w("FOLLOW no one"), w("FOLLOW 127.0.0.1"), w("FOLLOW")},
@@ -98,7 +98,7 @@ func catalogue() map[string][][]string {
 		"MASSINSERT": {w("MASSINSERT 2 2"), w("MASSINSERT")},
 		"SLEEP":      {w("SLEEP 0.001"), w("SLEEP")},
 		"SHUTDOWN":   {w("SHUTDOWN")},
-		"REPLCONF":   {w("REPLCONF listening-port 9999"), w("REPLCONF")},
+		"REPLCONF":   {w("REPLCONF ip-address 10.0.0.1"), w("REPLCONF listening-port x"), w("REPLCONF bogus 1"), w("REPLCONF listening-port"), w("REPLCONF listening-port 9999"), w("REPLCONF")},
 		"HELLO":      {w("HELLO 3"), w("HELLO")},
 		"COMMAND":    {w("COMMAND"), w("COMMAND DOCS")},
 		"BOGUSCMD":   {w("BOGUSCMD"), w("BOGUSCMD a b")},
